@@ -14,7 +14,7 @@ open(p, "w").write(s.replace(old, new, 1))
 try:
     for id in ids:
         r = subprocess.run(["/verif/vcheck", id], capture_output=True, text=True)
-        lines = [l for l in r.stdout.splitlines() if l.startswith(("VIOLATION", "HARNESS", "INCONCL", "KNOWN"))]
+        lines = [l for l in r.stdout.splitlines() if l.startswith(("VIOLATION", "HARNESS", "INCONCL"))]
         print(id, "rc=%d" % r.returncode, *[l[:230] for l in lines[:4]], sep="\n   ")
 finally:
     subprocess.run(["git", "-C", "/repo", "checkout", "--", f])
